@@ -7,6 +7,7 @@ TRUSTED_BASE = [
     "Rust harness /verif/harness (drives the real code, dumps its state), python orchestrator ./check",
     "HashMap/DashMap as finite maps, VecDeque as a list, monotone Instant, fastrand as an arbitrary choice < len",
     "source translators checklib/static_scopes.py (lock / RefCell nesting -> Generated/*.lean, C16s / C17s) and checklib/static_sites.py (lock-site inventory): lexical scanners, trusted",
+    "source translator checklib/rust2lean.py (pure helper code of memory_estimator.rs, utils.rs, cache_entry.rs, stats.rs, eviction_policy.rs -> Generated/Pure*.lean, theorems T01..T05): a parser + emitter for the Rust subset these files use, trusted; the meaning of the library calls (usize subtraction, VecDeque / HashMap / iterator methods, atomics, f64 as an abstract structure) is the hand-written Cachelito/RustLite.lean, trusted; Rust's trait resolution (which MemoryEstimator impl a shape uses) is transcribed in Cachelito/Source/Mem.lean",
 ]
 
 HOOK_COMMITS = [
@@ -119,7 +120,7 @@ PROPS = {
         "technique": TECH, "design_ref": "DESIGN.md §7 C14", "assumptions": [],
     },
     "C19": {
-        "lean_modules": ["Cachelito.Props.C19"],
+        "lean_modules": ["Cachelito.Props.C19", "Cachelito.Props.T05"],
         "streams": [lines_stream("attrs_diff", "attrs", ["gen", "{seed}", "{n}", "{n}"], 1500, 20000,
                                  "attrs: generated attribute lists (mostly valid: every attribute present/absent, six policies, limits, ttls, max_memory in all forms and letter cases, weights, names, arrays, paths; plus a malformed stream: unknown names, typos, wrong literal kinds, out-of-set policy/scope, negative/overflowing numbers, repeated attributes with an invalid occurrence) through the REAL parse_sync_attributes / parse_async_attributes (catch_unwind) vs Attrs.parse; is_result and has_max_memory expressions copied verbatim", r"^[AR]\|"),
                     {"kind": "compile", "nontrivial": [], "what": "compile corpus through rustc: 22 invalid attribute lists (unknown names, typos, wrong literal kinds, out-of-set policy/scope, negative/float/overflowing numbers, repeated attribute with an invalid occurrence) must fail to compile with the REAL macros, 5 valid controls must compile (one cargo check --examples --keep-going)"},
@@ -128,21 +129,21 @@ PROPS = {
         "rule": "attrs: one attribute list per line, distinct lines counted; L2: every call on a generated function",
         "level_text": "Lean theorems about the transcribed attribute parser: every Valid list is accepted with exactly its meaning (last occurrence wins, defaults otherwise, n KB/MB/GB = n*1024^k in any letter case), every list containing an unknown name or an invalid policy/scope/limit/ttl/max_memory/frequency_weight value ANYWHERE is rejected (parser error, spliced compile_error or panic - all compile failures), overflowing sizes are rejected, the textual has_max_memory test equals maxMemory.isSome, isResultSpelling accepts exactly the two spellings. Tied to the code by running the real parser on generated token streams and by the compiled corpus of generated functions whose behaviour is compared with the model per call. Rejection 'at compile time' is checked end to end by compiling invalid lists with the real macros. That rustc accepts the generated code for EVERY valid program is sampled by the corpora, not proved.",
         "level_note": MODEL_NOTE + " syn's tokenisation is trusted (the harness encodes what syn parsed). Quirks reproduced by the model and not alarmed: name = <non-string> ignored, \"1GBGB\" = 1 GB, leading + accepted, integer frequency_weight 0 accepted.",
-        "technique": "Lean 4 theorem (parser = independent specification on valid lists; rejection lemmas) + real parser vs model on generated attribute lists + compiled corpus behaviour vs model",
+        "technique": "Lean 4 theorem (parser = independent specification on valid lists; rejection lemmas) + real parser vs model on generated attribute lists + compiled corpus behaviour vs model + source-to-model translator for EvictionPolicy::from / is_valid",
         "design_ref": "DESIGN.md §7 C19", "assumptions": [],
     },
     "C04": {
-        "lean_modules": ["Cachelito.Props.C04", "Cachelito.Props.X01"],
+        "lean_modules": ["Cachelito.Props.C04", "Cachelito.Props.X01", "Cachelito.Props.T02"],
         "streams": [core_stream(nontrivial=["eviction", "expiry"], enumerate_=SMALL_SCOPE)],
         "monitors": ["C04"],
         "rule": "generated episodes (config product flavour x policy x limit x max_memory x ttl x fw, key alphabet limit+2) run on the real engines; a step is non-trivial when it evicts or purges an entry; distinct = distinct (config, pre-state, operation)",
         "level_text": "Machine-checked Lean theorems: the store/queue bookkeeping invariant holds in every reachable state, |store| <= limit after every operation of every history, and a plain store leaves exactly min(limit, held + [key new]) entries (one victim per overflow, none otherwise), for all flavours, policies, score algebras, sizes and random draws. The model is tied to the code by per-step full-state comparison on generated and (thorough) exhaustively enumerated histories.",
         "level_note": MODEL_NOTE,
-        "technique": TECH, "design_ref": "DESIGN.md §7 C04",
+        "technique": TECH + " + source-to-model translator for the pure helper code (utils.rs / cache_entry.rs / memory_estimator.rs / stats.rs / eviction_policy.rs regenerated into Lean on every run, translated function = model definition re-proved)", "design_ref": "DESIGN.md §7 C04",
         "assumptions": ["limit >= 1", "sequential use (concurrency is C18)"],
     },
     "C05": {
-        "lean_modules": ["Cachelito.Props.C05", "Cachelito.Props.C05a"],
+        "lean_modules": ["Cachelito.Props.C05", "Cachelito.Props.C05a", "Cachelito.Props.T01"],
         "streams": [core_stream(filters=[[], ["shape=crowd"]], quick=1600, thorough=30000, nontrivial=["memory-store"], what="L1 restricted to nothing: all flavours/policies, memory-aware stores with sizes around max_memory; half of the episodes in the 'crowd' shape (a bound that holds five to eight small residents, large newcomers that displace several of them in one store)"),
                     lines_stream("mem_diff", "mem", ["{seed}", "{n}"], 60, 600,
                                  "estimator: random values of 85 Rust types (String/Vec with chosen capacities, nested Option/Result/tuple/Box/Arc/Rc, CacheEntry) through the REAL estimate_memory() vs MemEst.estimate; independent footprint walk", r"\|"),
@@ -151,32 +152,32 @@ PROPS = {
         "rule": "L1: memory-aware stores on the real engines with value sizes around max_memory (exact fit, one byte over, oversize); non-trivial = a memory-aware store with max_memory set. Estimator: one random value per line, distinct lines counted",
         "level_text": "Lean theorems: (engine) after every memory-aware store total size <= max_memory for every history, an oversize value changes nothing but its own key, the memory loop removes exactly the shortest prefix of the policy's victim sequence after which the total fits (nothing when it already fits) and always terminates; (estimator) estimate = inline + owned heap (+ borrowed bytes for &str/&[T]), never below the inline size. Tied to the code per step (engines, full state) and per value (estimator).",
         "level_note": MODEL_NOTE + " Rust's size_of values are parameters reported by the harness.",
-        "technique": TECH, "design_ref": "DESIGN.md §7 C05",
+        "technique": TECH + " + source-to-model translator for the pure helper code (utils.rs / cache_entry.rs / memory_estimator.rs / stats.rs / eviction_policy.rs regenerated into Lean on every run, translated function = model definition re-proved)", "design_ref": "DESIGN.md §7 C05",
         "assumptions": ["all stores of a history go through insert_with_memory (as the macros generate when max_memory is set)", "size_of table as reported by rustc"],
     },
     "C06": {
-        "lean_modules": ["Cachelito.Props.C06"],
+        "lean_modules": ["Cachelito.Props.C06", "Cachelito.Props.T03"],
         "streams": [core_stream(nontrivial=["expiry", "ttl-boundary"]),
                     sched_stream(nontrivial=['served-call-source-checked', 'concurrent-call'], quick=(6, 8, 60), what="L3: scheduled runs that start from EXPIRED entries (stored, then aged past the ttl through the verif hook): a call is served from the cache only if some call stored the key again; expired-lookup paths race with stores and with each other")],
         "monitors": ["C06"],
         "rule": "generated episodes with time steps around the TTL boundary (T-0.1s, T, T+0.1s, whole seconds for async); non-trivial = a lookup of an entry within one second of the boundary or an expiry purge",
         "level_text": "Lean theorems: with ttl = T a lookup of an entry of age >= T s returns nothing, counts a miss and removes the key from store and queue (so it no longer occupies capacity: a following store into the previously full cache evicts nothing); a younger entry (sync: age < T; async: real age <= T-1 s, exact characterisation by the whole-second stamps) is served; at history level a served value always has real age < T. All flavours, policies, limits.",
         "level_note": MODEL_NOTE + " Virtual time: the harness re-stamps entry birth times; Instant is assumed monotone.",
-        "technique": TECH, "design_ref": "DESIGN.md §7 C06",
+        "technique": TECH + " + source-to-model translator for the pure helper code (utils.rs / cache_entry.rs / memory_estimator.rs / stats.rs / eviction_policy.rs regenerated into Lean on every run, translated function = model definition re-proved)", "design_ref": "DESIGN.md §7 C06",
         "assumptions": ["monotone clock"],
     },
     "C07": {
-        "lean_modules": ["Cachelito.Props.C07"],
+        "lean_modules": ["Cachelito.Props.C07", "Cachelito.Props.T02"],
         "streams": [core_stream(filters=[["policy=fifo"], ["policy=lru"]], nontrivial=["eviction"])],
         "monitors": ["C07"],
         "rule": "FIFO and LRU episodes on all three engines under entry limits 1..4, memory limits and both; non-trivial = a store that evicted",
         "level_text": "Lean theorems with ghost stamps derived from the history: the queue is sorted by last-store time (FIFO) / last-use time (LRU) in every reachable state, every eviction pops the queue head, hence every key removed by a store (entry limit or memory loop, several victims) is older than every surviving key; reads never change FIFO order. All flavours.",
         "level_note": MODEL_NOTE,
-        "technique": TECH, "design_ref": "DESIGN.md §7 C07",
+        "technique": TECH + " + source-to-model translator for the pure helper code (utils.rs / cache_entry.rs / memory_estimator.rs / stats.rs / eviction_policy.rs regenerated into Lean on every run, translated function = model definition re-proved)", "design_ref": "DESIGN.md §7 C07",
         "assumptions": [],
     },
     "C08": {
-        "lean_modules": ["Cachelito.Props.C08"],
+        "lean_modules": ["Cachelito.Props.C08", "Cachelito.Props.T02", "Cachelito.Props.T03"],
         "streams": [core_stream(filters=[["policy=lfu"], ["policy=arc"], ["policy=tlru"], ["policy=lfu", "shape=crowd"],
                                             ["policy=arc", "shape=crowd"], ["policy=tlru", "shape=crowd"],
                                             ["policy=arc", "shape=crowd", "flavour=async"], ["policy=tlru", "shape=crowd", "flavour=async"]],
@@ -185,7 +186,7 @@ PROPS = {
         "rule": "LFU / ARC / TLRU episodes on all three engines, limits 1..4, ttl none/1..3, frequency_weight none/0.1/0.3/1/1.5/3, entry and memory pressure; non-trivial = a store that evicted; the driver mirrors the f64 score exactly",
         "level_text": "Lean theorems: the victim scan returns the FIRST minimiser of the policy's score among stored queue keys for any strict-weak-order comparison (LFU: hits; ARC: hits x rank; TLRU: any scorer), every eviction of a store (limit step and memory loop) is such a victim; LFU victims have the fewest successful lookups (hit counters equal the history's count); async ARC/TLRU: among equally popular entries the least recently used goes first; sync engines: the victim is the first entry with a zero factor, so weight form and rank orientation are unobservable there; TLRU without ttl and weight coincides with ARC on every history.",
         "level_note": MODEL_NOTE + " TLRU theorems assume the f64 comparison is a strict weak order on the scores produced (no NaN) and positive weights; the driver's Float scorer mirrors libm pow.",
-        "technique": TECH, "design_ref": "DESIGN.md §7 C08",
+        "technique": TECH + " + source-to-model translator for the pure helper code (utils.rs / cache_entry.rs / memory_estimator.rs / stats.rs / eviction_policy.rs regenerated into Lean on every run, translated function = model definition re-proved)", "design_ref": "DESIGN.md §7 C08",
         "assumptions": ["frequency_weight > 0", "scores below f64::MAX / hit counters below u64::MAX"],
     },
     "C09": {
@@ -228,14 +229,14 @@ PROPS = {
         "technique": TECH, "design_ref": "DESIGN.md §7 C12", "assumptions": ["distinct cache names"],
     },
     "C13": {
-        "lean_modules": ["Cachelito.Props.C13", "Cachelito.Props.C12r"],
+        "lean_modules": ["Cachelito.Props.C13", "Cachelito.Props.C12r", "Cachelito.Props.T02"],
         "streams": [macro_stream(nontrivial=["conditional-invalidation-removed", "group-invalidation-hit"]), reg_stream(),
                     sched_stream(nontrivial=['concurrent-with', 'concurrent-allwith'], quick=(6, 8, 60), what="L3: scheduled runs in which conditional invalidations race with calls: a key matched by a completed invalidate_with / invalidate_all_with is not served from an entry stored before it began; non-matching caches and keys are untouched at quiescence (dump replayed on the interleaving model)")],
         "monitors": ["C13"],
         "rule": "episodes with invalidate_with / invalidate_all_with over random subsets of the stored keys and group invalidations, followed by further overflow histories; non-trivial = an invalidation that removed something",
         "level_text": "Lean theorems: group invalidations leave every non-matching cache instance (incl. thread-scope ones) equal; invalidate_with / invalidate_all_with yield exactly store.filter(not p) and queue.filter(not p) with survivors' order, values, births and hit counters kept; the invariant is preserved system-wide; sizes and memory totals afterwards are those of the survivors, a following overflow evicts the oldest survivor, and invalidation commutes with stores of the survivors. Tied to the code by dumps of every cache instance after each operation.",
         "level_note": MODEL_NOTE,
-        "technique": TECH, "design_ref": "DESIGN.md §7 C13", "assumptions": ["distinct cache names"],
+        "technique": TECH + " + source-to-model translator for the pure helper code (utils.rs / cache_entry.rs / memory_estimator.rs / stats.rs / eviction_policy.rs regenerated into Lean on every run, translated function = model definition re-proved)", "design_ref": "DESIGN.md §7 C13", "assumptions": ["distinct cache names"],
     },
     "C17": {
         "lean_modules": ["Cachelito.Props.C17", "Cachelito.Props.C17s"],
@@ -273,18 +274,18 @@ PROPS = {
         "design_ref": "DESIGN.md §7 C18", "assumptions": ["DashMap operations are linearizable"],
     },
     "C15": {
-        "lean_modules": ["Cachelito.Props.C15", "Cachelito.Props.C15b", "Cachelito.Props.C15c", "Cachelito.Props.C15r"],
+        "lean_modules": ["Cachelito.Props.C15", "Cachelito.Props.C15b", "Cachelito.Props.C15c", "Cachelito.Props.C15r", "Cachelito.Props.T04"],
         "streams": [core_stream(nontrivial=["hit", "expiry"]), macro_stream(nontrivial=["stats-get", "stats-reset", "hit"]),
                     sched_stream(nontrivial=["quiescent-stats-checked"], quick=(6, 8, 50)), hammer_stream(), counters_stream(), stats_stream()],
         "monitors": ["C15"],
         "rule": "L1: counters in every state dump; L2: stats_registry::get(name) after every call, get/reset by name incl. unknown names; non-trivial = hit, expiry-as-miss, stats query or reset",
         "level_text": "Lean theorems (sequential): every lookup bumps exactly one counter, hits iff it returned a value (an expired entry is a miss), nothing else touches the counters, hits+misses = number of lookups for every history. Tied to the code by the counters in every L1 state dump and by the registry's per-name statistics after every L2 call. Concurrent part: in scheduled runs of real threads (incl. lookups of expired entries racing with each other and with stores) hits+misses at quiescence must equal the number of completed calls and hits the number of calls served from the cache; and (C15c) in the interleaving model the counters equal the number of counted lookups at every point of every schedule and are exact at quiescence, hits = lookups that returned a value (fetch_add atomicity is assumed). Registry level (C15r: the statistics registry as the table name -> counters cell it is, every public operation of stats_registry and CacheStats, every operation history): get(name) returns exactly the counters of the cell registered last under that name (a reference to the cache's own counters: recordings after registration are visible), counters = recordings since the last reset, reset(name) zeroes exactly that cell and is a frame for every other name with a distinct cell, list = the registered names, clear empties the table and changes no cell; and the abstract per-name counters of the system model are what the table computes for the macros' registrations (refinement). Tied to the code by driving the real stats_registry / CacheStats through arbitrary histories.",
         "level_note": MODEL_NOTE + " AtomicU64::fetch_add is assumed atomic.",
-        "technique": TECH, "design_ref": "DESIGN.md §7 C15",
+        "technique": TECH + " + source-to-model translator for the pure helper code (utils.rs / cache_entry.rs / memory_estimator.rs / stats.rs / eviction_policy.rs regenerated into Lean on every run, translated function = model definition re-proved)", "design_ref": "DESIGN.md §7 C15",
         "assumptions": ["distinct cache names"],
     },
     "C16": {
-        "lean_modules": ["Cachelito.Props.C16", "Cachelito.Props.C05a", "Cachelito.Props.C16s"],
+        "lean_modules": ["Cachelito.Props.C16", "Cachelito.Props.C05a", "Cachelito.Props.C16s", "Cachelito.Props.T01"],
         "streams": [core_stream(nontrivial=["eviction", "expiry", "oversize"], quick=1200, thorough=24000,
                                 what="L1 over the full product flavour x policy x limit x ttl x max_memory x fw; every operation under catch_unwind, debug assertions and overflow checks on"),
                     macro_stream(nontrivial=["call"], quick=600, what="L2: every operation on the real generated functions (calls on all flavours incl. thread scope under every policy, invalidations, statistics) runs under catch_unwind; a panic is a C16 violation"),
@@ -294,7 +295,7 @@ PROPS = {
         "rule": "every operation of every generated episode runs under catch_unwind with overflow checks on; non-trivial = a step that evicts, purges or takes the oversize path (the paths that used to panic)",
         "level_text": "Lean theorems for each panic-capable primitive: random index always in range and guarded on the empty queue, scan positions below the queue length, every eviction on a non-empty consistent cache finds a victim, the thread-local RefCell borrow regions of every operation/policy/branch never conflict (and the pre-fix code's did), built-in estimators never underflow, eviction loops terminate. Tied to the code by running the full configuration product under catch_unwind. Translator tie: the RefCell borrow nesting of thread_local_cache.rs is extracted from the current source on every run (Generated/BorrowNesting.lean) and C16s proves that no borrow is taken while a conflicting borrow of the same cell is alive.",
         "level_note": MODEL_NOTE + " The RefCell borrow traces are a hand transcription tied to the code only through observed panics. Not modelled: allocation failure, usize overflow of sums, panics in user code (bodies, predicates, user estimators reporting less than size_of).",
-        "technique": TECH + " + source-to-model translator (nesting structure regenerated from the code and re-proved on every run)",
+        "technique": TECH + " + source-to-model translators (borrow nesting structure and the memory-estimator impls regenerated from the code and re-proved on every run)",
         "assumptions": ["limit >= 1", "user code does not panic"],
     },
 }
